@@ -44,7 +44,7 @@ func init() {
 		Title: "One notion of truthiness drives every selection operator",
 		Rule: "34 condition values (three nulls, booleans, numbers incl. 0, -0, 0.0, NaN, infinities, strings incl. '' and '0', arrays, maps, times, functions, structs) x 10 branch sentinels of every kind: !!c, !c, c?a:b, c&&b, c||b, c??b and every depth-2 nesting of two of them; branch evaluation of ?: observed through recording host functions and through local assignments; result must be the selected operand unchanged (numbers by value, arrays/maps by identity); distinct = distinct (formula shape, selected operand) classes",
 		TrustedBase: []string{"truthiness table written from the statement in checks/c06.go"},
-		Assumptions: []string{"side effects of the operands of && || ?? are not judged (only ?: must be lazy)", "a typed nil pointer has no expectation under ! and ??"},
+		Assumptions: []string{"side effects of the operands of && || ?? are not judged (only ?: must be lazy)", "a typed nil pointer has no expectation under ! (it is null for ??, as it is for member access and ===)"},
 		Run:         runC06,
 	})
 	c06Sel = eng.NewKind(c, "select", judgeSel)
@@ -84,12 +84,13 @@ func buildSelVals() {
 	conds := []cval{
 		{Expr: "null", Null: true, Kind: "null", NegOK: true, CoalOK: true},
 		{Expr: "nil1", Null: true, Kind: "null", NegOK: true, CoalOK: true},
-		{Expr: "nilp", Null: true, Kind: "null"},
+		{Expr: "nilp", Null: true, Kind: "null", CoalOK: true}, // null for ?? as for member access and === (C16); `!nilp` stays unclaimed
 		{Expr: "missing", Null: true, Kind: "null", NegOK: true, CoalOK: true},
 		{Expr: "true", Truthy: true, Kind: "bool", Bool: true, NegOK: true, CoalOK: true},
 		{Expr: "false", Kind: "bool", NegOK: true, CoalOK: true},
 		num("0", "0", false), num("(-0)", "-0", false), num("0.0", "0.0", false), num("0e5", "0", false),
 		num("1", "1", true), num("(-1)", "-1", true), num("0.5", "0.5", true), num("1e-30", "1e-30", true),
+		num("1e-400", "1e-400", true), num("(-1e-400)", "-1e-400", true), num("(1e-200*1e-200)", "1e-400", true), num("1e400", "1e400", true), num("(0*1e-400)", "0", false),
 		num("dzero", "0", false), num("dnegzero", "0", false), num("i0", "0", false), num("i5", "5", true),
 		{Expr: "(0/0)", Kind: "num", NaN: true, NegOK: true, CoalOK: true},
 		{Expr: "dnan", Kind: "num", NaN: true, NegOK: true, CoalOK: true},
